@@ -219,6 +219,9 @@ def gen(tier, seed, sp_factory=None):
     for k, sh in enumerate(LIBNAME_SHAPES):
         car = ['PartialEq', 'Eq', 'PartialEq', 'Eq'][k]
         mods.append(emit(build(sh, car, car == 'Eq'), f'm{len(mods):04d}', f'{S.shape_id(sh)}/carrier={car}/field types named PhantomData', pre=USER_PHANTOM))
+    for k, sh in enumerate(S.ignore_run_shapes('p', 'q')):
+        car = ['PartialEq', 'Eq'][k % 2]
+        mods.append(emit(build(sh, car, car == 'Eq'), f'm{len(mods):04d}', f'{S.shape_id(sh)}/carrier={car}/runs of ignored fields'))
     for vk in ('tuple', 'named'):
         sh = ('struct', [(vk, ['p'] * S.WIDE)])
         mods.append(emit(build(sh, 'PartialEq', False), f'm{len(mods):04d}', f'{S.shape_id(sh)}/carrier=PartialEq/wide'))
